@@ -223,9 +223,18 @@ func main() {
 		}
 	}
 	// drop-in files
-	drops := []string{"pkg/verifhook/hook.go", "export_verif.go"}
+	drops := []string{"pkg/verifhook/hook.go", "export_verif.go", "pkg/multicast/sim_verif.go"}
 	for _, d := range drops {
 		if err := copyFile(filepath.Join(abs, d), filepath.Join(*hooks, d)); err != nil {
+			fmt.Fprintln(os.Stderr, "instrument:", err)
+			os.Exit(2)
+		}
+	}
+	// The OS-facing multicast sockets (raw syscalls, no seam) are replaced in the scratch copy by
+	// sim_verif.go, which goes through the ListenPacket seam: the platform files are removed so
+	// that the two constructors are defined once. Only the scratch copy is touched.
+	for _, d := range []string{"pkg/multicast/multi_conn_linux.go", "pkg/multicast/single_conn_linux.go"} {
+		if err := os.Remove(filepath.Join(abs, d)); err != nil && !os.IsNotExist(err) {
 			fmt.Fprintln(os.Stderr, "instrument:", err)
 			os.Exit(2)
 		}
